@@ -34,7 +34,7 @@ ASSUMPTIONS = [
     "audit points: after stop()+join(), after unschedule() returned (that watch's group), after schedule()/start() raised",
 ]
 MINIMUMS = {"quick": {"shutdown_audits": 500, "injections_fired": 60, "hold_cases_reached": 80},
-            "thorough": {"shutdown_audits": 20000, "injections_fired": 400, "hold_cases_reached": 1500}}
+            "thorough": {"shutdown_audits": 20000, "injections_fired": 150, "hold_cases_reached": 1500}}
 WALL_CAP = {"quick": 170, "thorough": 3000}
 
 
